@@ -770,11 +770,18 @@ func parseSpecLines(lines []specLine, pkg string, file string, trusted bool) (*S
 			k, v := splitWord(rest)
 			cur.Options[k] = v
 		case "assert":
-			// assert at "<anchor text>" E   -- anchored on source text of a statement
-			if !strings.HasPrefix(rest, "at ") {
-				return nil, fmt.Errorf("%s: assert at \"text\" E", ln.pos)
+			// assert at|after "<anchor text>" E   -- anchored on source text of a statement
+			when := "at"
+			switch {
+			case strings.HasPrefix(rest, "at "):
+				rest = rest[3:]
+			case strings.HasPrefix(rest, "after "):
+				rest = rest[6:]
+				when = "after"
+			default:
+				return nil, fmt.Errorf("%s: assert at|after \"text\" E", ln.pos)
 			}
-			r := strings.TrimSpace(rest[3:])
+			r := strings.TrimSpace(rest)
 			if !strings.HasPrefix(r, "\"") {
 				return nil, fmt.Errorf("%s: assert at \"text\" E", ln.pos)
 			}
@@ -785,6 +792,7 @@ func parseSpecLines(lines []specLine, pkg string, file string, trusted bool) (*S
 				return nil, err
 			}
 			lastClause = c
+			c.Kind = "assert-" + when
 			cur.Asserts[anchor] = append(cur.Asserts[anchor], c)
 		default:
 			return nil, fmt.Errorf("%s: unknown clause kind %q", ln.pos, word)
